@@ -36,8 +36,9 @@ CHECKS.update({
                     "fault and save-protocol configurations (stores written by earlier sessions, crashes, flushes, partial loads); the "
                     "real code runs TLC-generated schedules and the monitor is re-evaluated on its traces. Read-only metadata mode is a constant of "
                     "Core.tla (the wrapped backend: saves return at once, nothing is written, loads pass through): any StoreWrite observed in "
-                    "that mode is a C02 violation, loads are compared with the store as in every mode.",
-            "ref": "6/C02", "note": _A + "; the 64-bit round trip through the Couchbase xattr / file backends is not covered (the fake backend stores what it is given)",
+                    "that mode is a C02 violation, loads are compared with the store as in every mode."
+                    " Wire level: StreamReq.tla (TLC: the re-request after ROLLBACK(r) resumes on the failover branch that contains r) prints rows that the REAL couchbase client executes over a gocbcore DCP agent against the simulated node; MonWire.tla (TLC) judges the DCP_STREAM_REQ packets the node received, 64-bit fidelity rows through the stream request, the Couchbase xattr metadata backend and the file backend, and the checkpoint document keys.",
+            "ref": "6/C02", "note": _A + "; 64-bit fidelity is checked on 7 boundary values per field, not proved over the value space",
             "technique": _T},
     "C03": {"text": "Core.tla lets the SERVER choose every next event (snapshot layouts, mutation/deletion/expiration, system, "
                     "seqno-advanced, key classes incl. reserved prefixes, events before skipUntil, rollback on open, crash and "
@@ -86,8 +87,9 @@ CHECKS.update({
     "C08": {"text": "rollback on stream open as an environment choice in Core.tla (any R <= F): after it nothing at or below F "
                     "is shown, everything above is, offsets carry the new branch uuid; exhaustive in TLC, monitored on rig-A "
                     "traces (the fake client plays the part of client.OpenStream's rollback path; the second stream request "
-                    "on the wire is a rig-B item).",
-            "ref": "6/C08", "note": _A + "; the real client.openStreamWithRollback is not exercised by rig A", "technique": _T},
+                    "on the wire is checked separately)."
+                    " Wire level: StreamReq.tla (TLC: the re-request after ROLLBACK(r) resumes on the failover branch that contains r) prints rows that the REAL couchbase client executes over a gocbcore DCP agent against the simulated node; MonWire.tla (TLC) judges the DCP_STREAM_REQ packets the node received, 64-bit fidelity rows through the stream request, the Couchbase xattr metadata backend and the file backend, and the checkpoint document keys.",
+            "ref": "6/C08", "note": _A + "; the wire-level rows use failover logs of <= 3 entries and seqnos <= 3", "technique": _T},
     "C09": {"text": "Chunk.tla transcribes helpers.ChunkSlice / VBucketDiscovery.Get; TLC enumerates every (N,T) of the domain as initial "
                     "states and checks Partition (non-empty, contiguous, ascending, disjoint, exact cover, sizes differ by <= 1) and the "
                     "closed form; the table it prints is replayed into the real functions (every pair, every member up to a bound) and "
@@ -145,7 +147,8 @@ CHECKS.update({
             "ref": "6/C13", "note": _A + "; 'returns in bounded time' is checked as: the driver's schedule reaches CloseReturn", "technique": _T},
     "C14": {"text": "reserved-key document events (connector prefix, transaction prefix) generated by the model's server: never "
                     "shown to the consumer, advance the position, never cause a checkpoint write on their own; exhaustive in TLC "
-                    "and monitored on real-code traces. Key construction for group names / vBucket ids is a rig-B item.",
+                    "and monitored on real-code traces."
+                    " Wire level: StreamReq.tla (TLC: the re-request after ROLLBACK(r) resumes on the failover branch that contains r) prints rows that the REAL couchbase client executes over a gocbcore DCP agent against the simulated node; MonWire.tla (TLC) judges the DCP_STREAM_REQ packets the node received, 64-bit fidelity rows through the stream request, the Couchbase xattr metadata backend and the file backend, and the checkpoint document keys.",
             "ref": "6/C14", "note": _A, "technique": _T},
     "C15": {"text": "every injected failure of metadata load, seqno query, failover-log query and stream open, every flushed "
                     "vBucket (checkpoint ahead of the high seqno) is an environment action of Core.tla; TLC checks exhaustively "
